@@ -264,12 +264,20 @@ fn run_random(ctx: &Ctx) -> Report {
         // (b) one-price bars vs scalar path; some values are repeated or followed by their
         // neighbouring float so that windows with a zero or one-ulp range occur
         let mut xs: Vec<f64> = five.iter().map(|b| b.c).collect();
+        let nonfinite_ticks = idx % 4 == 1;
         for i in 1..xs.len() {
             match rng.below(12) {
                 0 => xs[i] = xs[i - 1],
                 1 => xs[i] = f64::from_bits(xs[i - 1].to_bits().wrapping_add(1)),
+                // a quarter of the streams carry negative zeros. Non-finite ticks are outside this monitor's domain:
+                // on the unchanged tree TrueRange's bar path drops a NaN previous close (f64::max ignores NaN)
+                // while its scalar path propagates it, and the statement's "1e-12 relative" says nothing there
+                2 if nonfinite_ticks && rng.chance(0.15) => xs[i] = -0.0,
                 _ => {}
             }
+        }
+        if nonfinite_ticks {
+            rep.count("one_price_streams_with_negative_zero_ticks");
         }
         let ops_one: Vec<Op> = xs.iter().map(|x| Op::NextBar(Bar { o: *x, h: *x, l: *x, c: *x, v: rng.f() })).collect();
         let ops_x: Vec<Op> = xs.iter().map(|x| Op::NextF(*x)).collect();
